@@ -1299,6 +1299,34 @@ pub fn c09(tier: Tier) -> i32 {
             items2.push(l1_item(format!("{}@{}", p.tag, ver), &t));
         }
     }
+    // ... and as statements in every statement hole of every statement alternative (depth 1 and 2: blocks,
+    // unchecked blocks, loop bodies, both branches, try success blocks with and without a returns clause, catch
+    // clauses), again on either side of the thresholds
+    {
+        let salts = stmt_alts();
+        let simples = simple_alts();
+        let leaves: Vec<(String, Frag)> = vec![
+            ("safe_add".to_string(), expr_stmt(call(member(var("p"), "add"), vec![var("q")]))),
+            ("safe_chain".to_string(), expr_stmt(call(member(call(member(var("p"), "sub"), vec![var("q")]), "mul"), vec![var("r")]))),
+            ("require_long".to_string(), expr_stmt(call(var("require"), vec![var("p"), strlit("this revert string is longer than thirty-two bytes")]))),
+            ("require_short".to_string(), expr_stmt(call(var("require"), vec![var("p"), strlit("m")]))),
+        ];
+        let max_depth = if tier == Tier::Quick { 1 } else { 2 };
+        for depth in 1..=max_depth {
+            for (n, f) in stmt_chains(&salts, &simples, depth, &leaves) {
+                let base = crate::synth::in_func(f);
+                if base.toks.len() < 4 || base.toks[0] != "pragma" {
+                    continue;
+                }
+                for ver in ["0.7.6", "0.8.0", "0.8.3", "0.8.4"] {
+                    let mut t = base.toks.clone();
+                    t[2] = ver.to_string();
+                    t.extend(toks_of("using SafeMath for uint256 ;"));
+                    items2.push(l1_item(format!("stmt-hole:{}@{}", n, ver), &t));
+                }
+            }
+        }
+    }
     let sw2 = refdet::sweep_texts(&items2, &ds, Mode::Semantic);
     require_must(&mut run, &sw2, C09_DETS, "every-hole");
     absorb(&mut run, sw2, "every-hole");
